@@ -159,6 +159,14 @@ func vsParentMain(t *testing.T, prop string, testName string, ncases int) {
 			fmt.Fprintf(f, "< 666 %d\n", code)
 			f.Close()
 		}
+		if strings.Contains(ctx, "phase=expected-fatal") && strings.Contains(ctx, fmt.Sprintf("code=%d", code)) {
+			// a deliberately illegal request whose modelled outcome is this very Fatalf (compared through the 666 line)
+			vw.Stat("expected-fatal."+name, 1)
+			ci, _ := strconv.Atoi(strings.TrimPrefix(curCase, "c"))
+			next, resume = ci+1, ""
+			deaths--
+			continue
+		}
 		sig := "fatal:" + name
 		if ctx != "" {
 			sig += ":" + vsCtxSig(ctx)
@@ -288,6 +296,7 @@ type c02Gen struct {
 	isolated map[int]bool
 	members  int
 	snapHeavy bool
+	direct    bool // reconfiguration requests go straight to a leader's core at arbitrary moments (no raft.go serialisation)
 }
 
 func (g *c02Gen) deliverable(sm *vsSoupMsg) bool {
@@ -310,6 +319,9 @@ func (g *c02Gen) stepRandom() {
 	w := r.Intn(100)
 	if g.snapHeavy && r.Chance(1, 6) {
 		w = 92
+	}
+	if g.direct && r.Chance(1, 12) {
+		w = 97
 	}
 	switch {
 	case w < 48: // deliver a pending message
@@ -388,6 +400,8 @@ func (g *c02Gen) stepRandom() {
 			}
 		}
 		vsChildStat("ev.partition", 1)
+	case w < 99 && g.direct:
+		g.directReconf()
 	case w < 99: // reconfiguration, as raft.go would issue it
 		ls := g.leadersReady(true)
 		if len(ls) == 0 {
@@ -478,6 +492,102 @@ func (g *c02Gen) lagPhase() {
 	vsChildStat("lag.phases", 1)
 }
 
+// wouldFatalReconf predicts verifyNopCommitted's sanity Fatalf (no entry of the current term committed yet)
+func vsWouldFatalReconf(n *vsNode) bool {
+	ci := n.core.committedIndex
+	if ci > n.stor.lastIndex() {
+		return true
+	}
+	if ci == 0 {
+		return n.st.term != 0
+	}
+	fi, li, empty := n.wl.GetBound()
+	if !empty && ci >= fi && ci <= li {
+		return n.wl.Term(ci) != n.st.term
+	}
+	if meta := n.sm.snapMeta; meta != NilSnapshotMetadata && meta.LastIndex == ci {
+		return meta.LastTerm != n.st.term
+	}
+	return true
+}
+
+// directReconf: AddNode/RemoveNode straight at the core of any node that is leader in its own mind, whatever is pending:
+// back to back, while the previous change is uncommitted, of existing members, of non-members, of the leader itself.
+// The core's own guards decide (ErrNodeExists / ErrNodeNotExists / ErrTooManyPendingReqs); the outcome is in the
+// observation line and is compared with the model. Requests that would hit verifyNopCommitted's Fatalf are not issued
+// here (see expectedFatalReconf).
+func (g *c02Gen) directReconf() {
+	s, r := g.s, g.r
+	N := s.cfg.N
+	ls := g.leadersReady(false)
+	if len(ls) == 0 {
+		return
+	}
+	l := s.nodes[ls[r.Intn(len(ls))]]
+	burst := r.PickInt(1, 1, 2, 2, 3)
+	for b := 0; b < burst; b++ {
+		if l.role() != 2 || l.core.latestConf == nil || vsWouldFatalReconf(l) {
+			return
+		}
+		in := map[int]bool{}
+		for _, m := range l.core.latestConf.Members {
+			in[int(vsNum(m))] = true
+		}
+		var outs, ins []int
+		for i := 1; i <= N; i++ {
+			if in[i] {
+				ins = append(ins, i)
+			} else {
+				outs = append(outs, i)
+			}
+		}
+		var ev vsEvent
+		switch k := r.Intn(10); {
+		case k < 3 && len(outs) > 0:
+			ev = s.evAddNode(l.i, outs[r.Intn(len(outs))])
+		case k < 4:
+			ev = s.evAddNode(l.i, ins[r.Intn(len(ins))]) // existing member
+		case k < 5 && len(outs) > 0:
+			ev = s.evRemoveNode(l.i, outs[r.Intn(len(outs))]) // not a member
+		case k < 6 && len(ins) > 1 && in[l.i]:
+			ev = s.evRemoveNode(l.i, l.i) // the leader itself
+		case len(ins) > 1:
+			ev = s.evRemoveNode(l.i, ins[r.Intn(len(ins))])
+		default:
+			return
+		}
+		s.step(ev)
+		vsChildStat("ev.reconfig.direct", 1)
+	}
+	if r.Chance(1, 3) {
+		// cut the leader off right after: what it accepted must not let it commit alone
+		g.isolated = map[int]bool{l.i: true}
+		vsChildStat("ev.reconfig.direct.isolated", 1)
+	}
+}
+
+// expectedFatalReconf ends a case with a reconfiguration request before an entry of the current term is committed: the
+// core's sanity Fatalf is the modelled outcome (666 13); the parent does not count it as a violation.
+func (g *c02Gen) expectedFatalReconf() {
+	s, r := g.s, g.r
+	for _, n := range s.nodes[1:] {
+		if n.role() != 2 || n.core.latestConf == nil || len(n.core.latestConf.Members) < 2 || !vsWouldFatalReconf(n) || n.core.committedIndex > n.stor.lastIndex() {
+			continue
+		}
+		vsJournalLine("ctx", "phase=expected-fatal code=13")
+		vsChildStat("ev.reconfig.direct.expected-fatal", 1)
+		vsFlushStats()
+		m := int(vsNum(n.core.latestConf.Members[r.Intn(len(n.core.latestConf.Members))]))
+		if r.Chance(1, 2) {
+			s.step(s.evRemoveNode(n.i, m))
+		} else {
+			s.step(s.evAddNode(n.i, m))
+		}
+		vsJournalLine("ctx", "")
+		return
+	}
+}
+
 func (g *c02Gen) tick() {
 	s, r := g.s, g.r
 	ls := g.leadersReady(false)
@@ -543,8 +653,9 @@ func c02RunCase(ci int, r *vw.Rng, tr *vsTrace, _, _ int) {
 	}
 	s := vsNewSim("C02", id, cfg, tr)
 	g := &c02Gen{s: s, r: r, loose: r.Chance(1, 5), churn: r.PickInt(3, 10, 30, 60), isolated: map[int]bool{}}
+	g.direct = r.Chance(1, 4)
 	g.members = c02Bootstrap(s, r)
-	if r.Chance(1, 2) {
+	if g.direct || r.Chance(1, 2) {
 		c02WarmUp(s, r, g.members)
 		if r.Chance(1, 2) {
 			g.lagPhase()
@@ -567,6 +678,12 @@ func c02RunCase(ci int, r *vw.Rng, tr *vsTrace, _, _ int) {
 		}
 	}
 	vsChildStat(fmt.Sprintf("nodes=%d", cfg.N), 1)
+	if g.direct {
+		vsChildStat("cases.direct.reconfig", 1)
+		if r.Chance(1, 4) {
+			g.expectedFatalReconf()
+		}
+	}
 	c02Finish(s, id, false)
 }
 
@@ -1055,6 +1172,45 @@ var c02Corpus = []func(id string, tr *vsTrace) *vsSim{
 		}
 		for i := 0; i < 5; i++ {
 			for _, n := range vsAll(5) {
+				if s.nodes[n].role() == 2 {
+					s.step(s.evTick(n))
+				}
+			}
+			s.deliverAll(nil, 300)
+		}
+		return s
+	},
+	// 7. reconfiguration requests straight at the core: every refusal, then back-to-back removals {1,2,3} -> {1,3} -> {1}
+	//    while the first is uncommitted; the leader is cut off; the others elect a leader in the old configuration
+	func(id string, tr *vsTrace) *vsSim {
+		s := vsNewSim("C02", id, vsCorpusCfg(4, 1000, 0), tr)
+		s.step(s.evBootstrap(1, []int{1, 2, 3}, 5))
+		s.elect(1, 2, 3)
+		s.sync(1, 2, 3)
+		s.heartbeat(1, 1, 2, 3) // NOP of term 2 committed everywhere
+		s.step(s.evAddNode(1, 2))    // existing member
+		s.step(s.evRemoveNode(1, 4)) // not a member
+		s.step(s.evAddNode(2, 4))    // not the leader
+		s.step(s.evRemoveNode(1, 2)) // accepted: {1,3}, uncommitted
+		s.step(s.evRemoveNode(1, 3)) // must be refused: previous change uncommitted
+		s.step(s.evAddNode(1, 4))    // must be refused as well
+		s.step(s.evRemoveNode(1, 1)) // and the leader itself
+		s.dropPending(nil)           // the leader is cut off from now on
+		s.step(s.evPropose(1, []int64{s.freshCmd()}))
+		s.step(s.evTick(1))
+		s.dropPending(nil)
+		// n2 and n3 still hold {1,2,3}: n2 wins with n3's vote and commits its own entries
+		s.elect(2, 3)
+		s.sync(2, 3)
+		s.heartbeat(2, 2, 3)
+		if s.nodes[2].role() == 2 && s.nodes[2].nopDoneTerm == s.nodes[2].st.term {
+			s.step(s.evPropose(2, []int64{s.freshCmd()}))
+			s.sync(2, 3)
+			s.heartbeat(2, 2, 3)
+		}
+		// heal
+		for i := 0; i < 5; i++ {
+			for _, n := range vsAll(4) {
 				if s.nodes[n].role() == 2 {
 					s.step(s.evTick(n))
 				}
